@@ -332,8 +332,10 @@ ASSUMPTIONS = [
     "its re-run is add(check_exists=True) (transfer() re-establishes the assertion with its existence query); re-adding "
     "an existing object with check_exists=False is outside the quantifier (with hardlink=True it truncates the "
     "workspace file through the shared inode)",
-    "destinations are of the local store class, except two fixed base-class cases (save, add+verify); a base-class "
-    "destination's existence query does not verify contents (reported finding, see C15_PENDING)",
+    "destinations are of the LOCAL store class (the property's scenario family), plus two fixed base-class cases for "
+    "save and add+verify; a TRANSFER into a base-class HashFileDB destination is outside the family: its existence query "
+    "goes by name only, so the reflink probe's empty leftover counts as present and the re-run never repairs it (same "
+    "root cause as the known probe-leftover finding; recorded as an observation, runnable with C15_PENDING=1)",
     "durability is not modelled: a kill (os._exit) loses no completed system call; fsync, power loss and torn "
     "renames are environment hypotheses (rename/replace is atomic, SQLite transactions are atomic)",
     "crash points are the audit events raised by CPython for file-system mutations below the store root plus the "
@@ -1233,8 +1235,9 @@ def corpus(ctx):
     out += [dict(scenario="stage_transfer", tree={}, empty_dirs=["only/empty"], label="empty listing (stage+transfer)"),
             dict(scenario="save", tree={}, empty_dirs=["only/empty", "void"], label="empty listing (index.save)")]
     if os.environ.get("C15_PENDING"):
-        # FINDING reported to the lead, not yet recorded in known_findings.json (kept out of the default run so
-        # that the unchanged tree stays green): a destination of the GENERIC store class on a local file system
+        # OBSERVATION (lead's ruling: outside the property's scenario family - local destination - and the same root
+        # cause as the known finding; recorded in ctx.extra["observations"], never a known_findings entry): a
+        # destination of the GENERIC store class on a local file system
         # answers the existence query by listing, so the reflink probe's empty leftover counts as present, is
         # never re-copied, and the directory object listing it is uploaded (C15:open-directory:after-rerun,
         # C15:not-converged at the kill between the probe's create and its unlink)
@@ -1376,6 +1379,26 @@ def run(ctx):
         dim("crash:between-protect-and-state-save",
             sum(1 for e in data["events"] if e["ev"] == "state"))
     ctx.extra["input_dimensions"] = dict(sorted(dims.items()))
+    ctx.extra["observations"] = [{
+        "what": "transfer into a destination of the GENERIC store class (HashFileDB on a local file system, real State): "
+                "killed between the reflink probe's create and its unlink, the re-run's existence query (by name, no "
+                "hashing) reports the empty leftover as present, it is never copied again and the directory object "
+                "listing it is uploaded; also with verify=True",
+        "input": {"scenario": "stage_transfer", "cls": "base", "tree": {"a": "AAA", "d/b": "BB"}, "kill_at": 4,
+                  "event": {"ev": "remove", "p": "e1/faffb3e614e6c2fba74296962386b7"}},
+        "signatures": ["C15:open-directory:after-rerun", "C15:not-converged"],
+        "ruling": "outside the property's scenario family (local destination store); same root cause as the known "
+                  "finding " + KNOWN_SIG + "; not a known_findings entry",
+        "how_to_run": "C15_PENDING=1 harness/check.py C15 --tier quick",
+    }, {
+        "what": "re-running a bare odb.add(hardlink=True, check_exists=False) over an object an earlier attempt already "
+                "linked: the reflink probe truncates the object and, through the shared inode, the workspace file",
+        "input": {"scenario": "add", "hardlink": True, "verify": True, "check_exists": False,
+                  "tree": {"a": "AAA", "d/b": "BB"}, "kill_at": 8, "event": {"ev": "link"}},
+        "signatures": ["C15:workspace-file-changed:after-rerun"],
+        "ruling": "outside the quantifier: check_exists=False asserts absence, which a re-run cannot assert; re-runs of "
+                  "such adds are performed with check_exists=True (transfer() re-establishes the assertion by its query)",
+    }]
 
 
 def replay_case(ctx, case):
